@@ -4,6 +4,7 @@ import (
 	"bytes"
 	"fmt"
 	"io"
+	"runtime"
 	"strings"
 	"sync"
 	"testing"
@@ -393,9 +394,15 @@ func TestC07(t *testing.T) {
 				return rw.all(), err
 			}}
 		}
-		crossings := vh.Pick(5, 30)
+		crossings := vh.Pick(10, 40)
 		var wg sync.WaitGroup
-		for w := 0; w < 16; w++ {
+		// far more writers than cores: at every instant most of them are parked at some point of their write (the scheduler
+		// preempts them anywhere), so that whatever a writer does between two readings of the clock is stretched over the
+		// boundary for some of them
+		// ... and far more OS threads than cores, so that the kernel, too, takes writers off the CPU at arbitrary instructions
+		nw := 16 * runtime.GOMAXPROCS(0)
+		defer runtime.GOMAXPROCS(runtime.GOMAXPROCS(nw))
+		for w := 0; w < nw; w++ {
 			wg.Add(1)
 			go func(w int) {
 				defer wg.Done()
@@ -404,8 +411,10 @@ func TestC07(t *testing.T) {
 				for c := 0; c < crossings; c++ {
 					now := time.Now()
 					next := now.Truncate(time.Second).Add(time.Second)
-					time.Sleep(next.Sub(now) - 3*time.Millisecond)
-					for i := 0; time.Now().Before(next.Add(3 * time.Millisecond)); i++ {
+					// start early enough for the scheduler's time slices (10 ms) to have parked writers in mid-write when the
+					// second rolls over
+					time.Sleep(next.Sub(now) - 70*time.Millisecond)
+					for i := 0; time.Now().Before(next.Add(25 * time.Millisecond)); i++ {
 						before := ticksNow()
 						wire, err := l.write(i)
 						after := ticksNow()
